@@ -1,6 +1,6 @@
 SPECIFICATION Spec
 CONSTANTS
-  Alphabet = {"a", "amp", "eq", "quot", "apos", "lt", "gt", "pct", "plus", "space", "nl", "semi", "hash", "qm", "eacute", "emoji"}
+  Alphabet = {"a", "amp", "eq", "quot", "apos", "lt", "gt", "pct", "plus", "space", "nl", "semi", "hash", "qm", "eacute", "emoji", "entamp", "entlegacy", "entnum", "pctseq", "pctbad"}
   MaxLen = 1
   FixedSoap = TRUE
   FixedArtifact = TRUE
